@@ -7,6 +7,9 @@ import HgVerif.Driver.Proto
     order; the loop `L` = cycles while the shared flag is raised. -/
 open HgVerif.PushQueueN HgVerif.Driver
 open HgVerif.PushQueue (Policy Cfg SendKind Outcome PPc)
+/-! A source with policy letter `d` is the conflating policy with a `TSD<int, TS<int>>` output: the
+    payload of a send to it is a collection delta (`<k>=<v>` | `-<k>` | `e` | a comma list), its
+    cycle entry the delivered value `{k:v,..}` sorted by key. -/
 
 structure DS where
   sys : Sys := { n := 1, cfg := fun _ => {} }
@@ -52,6 +55,21 @@ def settle (sys : Sys) : Nat → St → Parked → String → St × Parked × St
       settle sys fuel s2 (bl.filter (fun x => !(x.1 == k && x.2.1 == i)))
         (out ++ s!" +b{k}.{i}:{v}={lastResult (s2.src k) i}")
 
+def sortNat (l : List Nat) : List Nat := l.mergeSort (fun a b => a ≤ b)
+
+/-- `{k:v,..}` sorted by key -/
+def dictS (m : Dict) : String :=
+  let ks := (sortNat (m.map (·.1))).eraseDups
+  "{" ++ ",".intercalate (ks.filterMap (fun k => (m.find? (fun e => e.1 == k)).map (fun e => s!"{e.1}:{e.2}"))) ++ "}"
+
+/-- canonical text of a delta: removals ascending, then sets by key (last one wins), `e` when empty -/
+def deltaS (d : Delta) : String :=
+  let rs := (sortNat d.removes).eraseDups.map (fun k => s!"-{k}")
+  let m : Dict := d.sets.foldl dictSet []
+  let ks := (sortNat (m.map (·.1))).eraseDups
+  let ss := ks.filterMap (fun k => (m.find? (fun e => e.1 == k)).map (fun e => s!"{e.1}={e.2}"))
+  if rs.isEmpty && ss.isEmpty then "e" else ",".intercalate (rs ++ ss)
+
 def valsS (cfg : Cfg) (vs : List (Nat × Nat)) : String :=
   match cfg.policy with
   | .burst => "[" ++ ",".intercalate (vs.map (fun x => toString x.2)) ++ "]"
@@ -60,7 +78,8 @@ def valsS (cfg : Cfg) (vs : List (Nat × Nat)) : String :=
 /-- what each source handed to the graph in the cycle stamped `t` -/
 def cycleVals (sys : Sys) (s : St) (t : Nat) : String :=
   "/".intercalate ((List.range sys.n).map (fun k =>
-    let vs := ((s.src k).delivered.filter (fun d => d.1 == t)).map (fun d => valsS (sys.cfg k) d.2)
+    let vs := if isDict (sys.cfg k) then ((s.src k).cdelivered.filter (fun d => d.1 == t)).map (fun d => dictS d.2.2)
+              else ((s.src k).delivered.filter (fun d => d.1 == t)).map (fun d => valsS (sys.cfg k) d.2)
     if vs.isEmpty then "-" else ",".intercalate vs))
 
 /-- the push phase: pop and re-arm of every source, in index order -/
@@ -92,8 +111,27 @@ def doLoop (sys : Sys) (sfuel : Nat) : Nat → St → Parked → List String →
 
 def allDigits (a : String) : Bool := !a.isEmpty && a.all Char.isDigit
 
-/-- `t<s>.<i>:<v>` / `b<s>.<i>:<v>` -/
-def parseSend (t : String) : Option (Bool × Nat × Nat × Nat) :=
+/-- one item of a delta: `<k>=<v>` or `-<k>` -/
+def parseItem (d : Delta) (it : String) : Option Delta :=
+  if it.startsWith "-" then
+    let k := (it.drop 1).toString
+    if allDigits k && it.length < 8 then k.toNat?.map (fun k => { d with removes := d.removes ++ [k] }) else none
+  else match it.splitOn "=" with
+    | [k, v] =>
+      if allDigits k && allDigits v && it.length ≤ 16 then
+        match k.toNat?, v.toNat? with
+        | some k, some v => some { d with sets := d.sets ++ [(k, v)] }
+        | _, _ => none
+      else none
+    | _ => none
+
+/-- `e` | comma list of items -/
+def parseDelta (tok : String) : Option Delta :=
+  if tok == "e" then some {} else
+  (tok.splitOn ",").foldl (fun acc it => acc.bind (fun d => parseItem d it)) (some {})
+
+/-- `t<s>.<i>:<payload>` / `b<s>.<i>:<payload>` -/
+def parseSend (t : String) : Option (Bool × Nat × Nat × String) :=
   match t.toList with
   | c :: rest =>
     if c == 't' || c == 'b' then
@@ -101,25 +139,29 @@ def parseSend (t : String) : Option (Bool × Nat × Nat × Nat) :=
       | [a, v] =>
         match a.splitOn "." with
         | [k, i] =>
-          if allDigits k && allDigits i && allDigits v then
-            match k.toNat?, i.toNat?, v.toNat? with
-            | some k, some i, some v => some (c == 'b', k, i, v)
-            | _, _, _ => none
+          if allDigits k && allDigits i && !v.isEmpty && k.length ≤ 6 then
+            match k.toNat?, i.toNat? with
+            | some k, some i => some (c == 'b', k, i, v)
+            | _, _ => none
           else none
         | _ => none
       | _ => none
     else none
   | [] => none
 
-def validStep (n : Nat) (t : String) : Bool :=
+def validStep (sys : Sys) (t : String) : Bool :=
   t == "S" || t == "c" || t == "L" || t == "r" || t == "X" ||
-  (match parseSend t with | some (_, k, _, _) => k < n | none => false)
+  (match parseSend t with
+   | some (_, k, _, v) => k < sys.n && (if isDict (sys.cfg k) then (parseDelta v).isSome else allDigits v)
+   | none => false)
 
 /-- a whole send by producer `i` of source `k` -/
-def doSend (sys : Sys) (s : St) (bl : Parked) (t : String) (blocking : Bool) (k i v : Nat) : St × Parked × String :=
+def doSend (sys : Sys) (s : St) (bl : Parked) (t : String) (blocking : Bool) (k i : Nat) (pay : String) : St × Parked × String :=
   if bl.any (fun x => x.1 == k && x.2.1 == i) then (s, bl, t ++ "=busy") else
   let kd := if blocking then SendKind.blocking else SendKind.try_
-  let s1 := stepD sys s (.src k (.enter i kd v))
+  let v := pay.toNat?.getD 0
+  let s1 := if isDict (sys.cfg k) then stepD sys s (.src k (.enterD i kd ((parseDelta pay).getD {})))
+            else stepD sys s (.src k (.enter i kd v))
   let s2 := match (s1.src k).pcs i with | .entered _ _ => stepD sys s1 (.src k (.check i)) | _ => s1
   let s3 := match (s2.src k).pcs i with | .checked _ _ => stepD sys s2 (.src k (.admitQ i)) | _ => s2
   match (s3.src k).pcs i with
@@ -154,7 +196,7 @@ def runSched (sys : Sys) (steps : List String) : String :=
       else if t == "X" then
         if !anyStarted sys s || anyStopped sys s then (s, bl, t ++ "=-") else (stopAll sys s, bl, t)
       else match parseSend t with
-        | some (blocking, k, i, v) => doSend sys s bl t blocking k i v
+        | some (blocking, k, i, pay) => doSend sys s bl t blocking k i pay
         | none => (s, bl, t ++ "=?")
     let (s'', bl'', line') := settle sys fuel s' bl' line
     (s'', bl'', acc.2.2 ++ [line' ++ pendS sys s''])) (({} : St), [], [])
@@ -163,9 +205,12 @@ def runSched (sys : Sys) (steps : List String) : String :=
     if anyStarted sys s && !anyStopped sys s then settle sys fuel (stopAll sys s) r.2.1 ""
     else settle sys fuel s r.2.1 ""
   let acc := "/".intercalate ((List.range sys.n).map (fun k =>
-    "[" ++ ",".intercalate ((sE.src k).accepted.map (fun x => toString x.2)) ++ "]"))
+    if isDict (sys.cfg k) then "[" ++ ";".intercalate ((sE.src k).caccepted.map (fun x => deltaS x.2)) ++ "]"
+    else "[" ++ ",".intercalate ((sE.src k).accepted.map (fun x => toString x.2)) ++ "]"))
   let del := "/".intercalate ((List.range sys.n).map (fun k =>
-    "[" ++ " ".intercalate ((sE.src k).delivered.map (fun d => s!"{d.1 + 1000}:{valsS (sys.cfg k) d.2}")) ++ "]"))
+    if isDict (sys.cfg k) then
+      "[" ++ " ".intercalate ((sE.src k).cdelivered.map (fun d => s!"{d.1 + 1000}:{dictS d.2.2}")) ++ "]"
+    else "[" ++ " ".intercalate ((sE.src k).delivered.map (fun d => s!"{d.1 + 1000}:{valsS (sys.cfg k) d.2}")) ++ "]"))
   " | ".intercalate (r.2.2 ++ [s!"end{tail} accepted={acc} delivered={del}"])
 
 def parseCfgs : List String → Option (List Cfg)
@@ -176,6 +221,7 @@ def parseCfgs : List String → Option (List Cfg)
     | some c, "q", some l => some ({ cap := c, policy := .queue } :: l)
     | some c, "b", some l => some ({ cap := c, policy := .burst } :: l)
     | some c, "c", some l => some ({ cap := c, policy := .conflating } :: l)
+    | some c, "d", some l => some ({ cap := c, policy := .conflating, dict := true } :: l)
     | _, _, _ => none
   | _ => none
 
@@ -188,7 +234,7 @@ def step' (d : DS) (ws : List String) : DS × String :=
       if l.length ≥ 1 && l.length ≤ 3 then ({ d with sys := { n := l.length, cfg := fun k => l.getD k {} } }, "ok")
       else (d, "bad-op")
     | none => (d, "bad-op")
-  | "sched" :: steps => if steps.all (validStep d.sys.n) then (d, runSched d.sys steps) else (d, "bad-op")
+  | "sched" :: steps => if steps.all (validStep d.sys) then (d, runSched d.sys steps) else (d, "bad-op")
   | [] => (d, "")
   | _ => (d, "bad-op")
 
